@@ -194,7 +194,7 @@ func addCase(sh *shared, o *observation) {
 			node = o.Before.RemoteNode
 		}
 		remote = fmt.Sprintf("(Some (%s, %s))", HxS(node), HxS("emit"))
-		types, wtype = "[]", HxS("remote")
+		wtype = HxS("remote")
 	}
 	// whether the daemon's in-memory copy had kept up with the runner is not observable directly; it
 	// shows when the runner died leaving the file empty: the daemon then rewrites the record from its
